@@ -277,7 +277,7 @@ def run(ctx):
     _mask_inconclusive(ctx)
     _cheap_minimise(ctx)
     period = "200" if ctx.tier == "quick" else "120"
-    ctx.diff(area="burst", driver="drv_c16", n={"quick": 40000, "thorough": 2400000}, stateful=True,
+    ctx.diff(area="burst", driver="drv_c16", n={"quick": 40000, "thorough": 3000000}, stateful=True,
              trivial=lambda l, o: o == "inconclusive", canon=_canon, tagger=_tagger,
              extra_env={"C16_PERIOD_MS": period, "C16_PAR": "64"}, timeout=600,
              theorem="C16.granted_le_cap / lastUsed_spec / answer_exactly_once / immediate_errors / "
